@@ -1,0 +1,41 @@
+//go:build verif
+
+package parser
+
+import (
+	"bytes"
+	"io"
+
+	"github.com/cloudflare/pint/internal/comments"
+	"github.com/cloudflare/pint/internal/diags"
+)
+
+// VerifReaderResult is what the masking ContentReader produced for one input.
+type VerifReaderResult struct {
+	Masked      []byte
+	Lines       []string
+	Comments    []comments.Comment
+	Diagnostics []diags.Diagnostic
+	Lineno      int
+	SkipAll     bool
+	SkipNext    bool
+	AutoReset   bool
+	InBegin     bool
+}
+
+// VerifReadContent runs the ContentReader used by Parser.Parse over src.
+func VerifReadContent(src []byte) VerifReaderResult {
+	cr := newContentReader(bytes.NewReader(src))
+	masked, _ := io.ReadAll(cr)
+	return VerifReaderResult{
+		Masked:      masked,
+		Lines:       cr.lines,
+		Comments:    cr.comments,
+		Diagnostics: cr.diagnostics,
+		Lineno:      cr.lineno,
+		SkipAll:     cr.skipAll,
+		SkipNext:    cr.skipNext,
+		AutoReset:   cr.autoReset,
+		InBegin:     cr.inBegin,
+	}
+}
